@@ -829,6 +829,14 @@ func (ctx *context) Run() (res *Result) {
 		instr.fn(ctx)
 		verifStep(ctx, x, instr.fnName)
 		ctx.addDebug(ctx.pfx + "----\n")
+		if ctx.res.runErr != nil {
+			// An instruction reported a failure (eg the data tree could
+			// not be navigated).  Stop here so that this error reaches
+			// the caller; carrying on would run the remaining
+			// instructions on an incomplete stack and replace it with an
+			// unrelated internal error.
+			break
+		}
 		_ = x
 	}
 
